@@ -79,7 +79,7 @@ def run(ctx, args):
     shapes = universe.enumerate_shapes(ctx, 1)
     prog = universe.base_program(shapes, extra=extras())
     sc = schemalib.schema_of(prog)
-    pv = 14 if thorough else 5
+    pv = 14 if thorough else 7
     tsc, _ = schemalib.to_tla(sc)
     cfg = ("INIT EqInit\nNEXT EqNext\nCONSTANTS\n  SetDups = TRUE\n  MaxVals = 40\n  Depth = 2\n  ReadVals = 1\n"
            "  Breadth = \"narrow\"\n  PairVals = %d\nINVARIANTS Reflexive Symmetric IdenticalAreEqual EqEmit\n"
